@@ -33,6 +33,7 @@ EXPLANATION = (
     "definition and repetition levels where the previous page stopped (shared with C02.7). "
     "(10) what a decoding loop reads through a pointer cursor it steps over before its next iteration (R40: no path from a read through the cursor to the next iteration's read without a store to the cursor - a `continue` may skip an element that was not read, not one that was). (11) the RLE/bit-packing hybrid decoder, executed on streams written from the specification (several groups per bit-packed run, zero-length runs, a padded final group, runs longer than wanted; headers and RLE values concrete, packed payload opaque, group unpacker hooked), returns the values and the count the specification names (shared with C12.2). (12) the PLAIN decoders, executed on streams written from the specification for all eight physical types (values whose bytes all differ, booleans with set padding bits, empty and 300-byte byte arrays), directly and through the carquet_decode_plain type switch, return the stream's values and its length in bytes (shared with C12.9). (13) the built-in Snappy and LZ4 decompressors on valid streams built from the format documents with opaque payload, compared byte for byte (provenance) with a decoder written from the documents (shared with C10). Decides these clauses, not that decoded values/levels equal the stored ones for every file.")
 
+from ..rules.sem import Inconclusive as sem_Inconclusive
 PR = "src/reader/page_reader.c"
 PW = "src/writer/page_writer.c"
 PL = "src/encoding/plain.c"
@@ -224,6 +225,20 @@ def run(ctx):
                             ix[0][2] != pageread.PAGE_SIZE - 4 - pageread.DEF_SIZE - 1:
                         fail("index-width-source", "%s: indices decoded as %s; the width byte is %d at offset %d" % (
                             name, ix[0], pageread.WIDTH_BYTE, 4 + pageread.DEF_SIZE))
+                    # a page whose index width byte is 0 (a one-entry dictionary): the indices the gather reads are still this
+                    # page's - decoded, or cleared, in this call - not what an earlier page of the chunk left in the reused buffer
+                    try:
+                        ret0, ev0, nread0 = pageread.trace(P, max_def=0, encoding=v, has_dict=True, width_byte=0, num_values=8, dict_count=4)
+                        ntr += 1
+                        seq0 = [e for e in ev0 if e[0] in ("indices", "gather", "memset")]
+                        first_use = next((i for i, e in enumerate(seq0) if e[0] == "gather"), None)
+                        prepared = any(e[0] == "indices" or (e[0] == "memset" and isinstance(e[1], tuple) and str(e[1][0]).startswith("idx")) for e in seq0[:first_use if first_use is not None else len(seq0)])
+                        if ret0 == 0 and first_use is not None and not prepared:
+                            fail("index-width-source", "%s, index width byte 0, 8 values: the values are gathered through the index buffer although no index was decoded or cleared in this call (events %s)" % (name, [e[0] for e in seq0]))
+                        elif ret0 == 0 and first_use is None and not prepared and nread0 not in (0, None):
+                            fail("index-width-source", "%s, index width byte 0: %r values reported without decoding indices (events %s)" % (name, nread0, [e[0] for e in ev0][:6]))
+                    except sem_Inconclusive:
+                        pass
                 elif v in DICTS:
                     if dec or not isinstance(ret, int) or ret == 0:
                         fail("dictionary-required", "%s without a dictionary: decoders %s, returns %s" % (name, dec, ret))
